@@ -2,6 +2,7 @@ package rules
 
 import (
 	"go/token"
+	"go/types"
 	"sort"
 	"strings"
 
@@ -136,6 +137,38 @@ func checkC12(c *Ctx) {
 				r.Ok("C12/GUARD/expired", cons, p.InstrPos(in), "%s", guard)
 			}
 		})
+	}
+	// the scan removes through RemoveMessage only: a bulk removal acts on whatever the mailbox
+	// holds when it runs, not on the snapshot the age test was made on
+	{
+		storeIface := p.Named("pkg/storage", "Store")
+		var bulk []string
+		if storeIface != nil {
+			for fn := range p.SyncReach(scan) {
+				if eng.FuncPkgPath(fn) != eng.FuncPkgPath(scan) {
+					continue
+				}
+				eng.EachInstr(fn, func(in ssa.Instruction) {
+					call, ok := in.(*ssa.Call)
+					if !ok || !call.Call.IsInvoke() {
+						return
+					}
+					if !types.Identical(call.Call.Value.Type(), storeIface) {
+						return
+					}
+					switch call.Call.Method.Name() {
+					case "PurgeMessages", "AddMessage", "MarkSeen":
+						bulk = append(bulk, "Store."+call.Call.Method.Name()+" at "+p.InstrPos(in))
+					}
+				})
+			}
+		}
+		sort.Strings(bulk)
+		if len(bulk) > 0 {
+			r.Bad("C12/GUARD/expired", "scan-store-calls", p.Pos(scan.Pos()), "the scan changes the store through %s: a purge removes every message the mailbox holds at that moment, including mail delivered after the snapshot whose ages were tested", strings.Join(bulk, ", "))
+		} else {
+			r.Ok("C12/GUARD/expired", "scan-store-calls", p.Pos(scan.Pos()), "the scan mutates the store only through RemoveMessage of tested messages")
+		}
 	}
 	r.Floor("C12/GUARD/expired", "RemoveMessage sites in the scan", n, 1)
 
